@@ -243,6 +243,14 @@ def check(rep, ctx):
                    "taggedVersions together or not at all; versions falls back to taggedVersions)", floor=6)
     for row in field_validator_rows(ctx):
         rep.check(R19, row["ok"], construct="codegen.parser:_BaseField", stmt=row["case"], message=row["message"], file=psrc.rel, line=0)
+    from .. import scan as _scan
+    R20 = rep.rule("C16-G20-driver-errors", "the generator's driver drops no exception: a definition it cannot translate, or an old tree it cannot "
+                   "remove, ends the run instead of leaving a partial or stale schema tree behind", floor=2,
+                   necessary_because="version modules are written while generate_models is being consumed: a swallowed NotImplementedError "
+                                     "leaves versions 0..k-1 of one entity on disk without the later ones; a swallowed deletion error leaves the "
+                                     "previous release's modules among the new ones")
+    for row in _scan.swallowed_errors(ctx, ["codegen.generate_schema", "codegen.recreate_schema_path", "codegen.generate_index", "codegen.util"]):
+        rep.check(R20, row["ok"], construct=f"{row['module']}:{row['function']}", stmt=row["stmt"], message=row["what"], file=row["file"], line=row["line"])
     R8 = rep.rule("C16-G8-field", "format_dataclass_field: an explicit default is emitted as given whatever the tagging/ignorability; "
                   "metadata carries the kafka type and the tag iff tagged", floor=40,
                   necessary_because="ApiVersionsResponse.FinalizedFeaturesEpoch is tagged, ignorable and has default -1: it must stay -1")
